@@ -14,6 +14,8 @@ class Ctx:
         self.rng = rng
         self.n = 0
         self.groups = 0
+        self.rich = False
+        self.doc_features = set()
         self.docs = docs
         self.doc_p = doc_p
         self.tracer = 0
@@ -32,6 +34,18 @@ class Ctx:
         if not self.docs or (not force and self.rng.random() > self.doc_p):
             return []
         self.tracer += 1
+        if getattr(self, "rich", False):
+            from vf import docgrammar
+
+            lines, _ = docgrammar.gen_body(self.rng, self.tracer, features=self.doc_features)
+            if self.rng.random() < 0.2:
+                keys = self.rng.sample(["author", "version", "date", "since", "category", "license"], self.rng.randint(1, 2))
+                meta = [f"{k}: zm{self.tracer}{k[0]}{i}" for i, k in enumerate(keys)]
+                self.doc_features.add("metadata")
+                if self.rng.random() < 0.5 or lines[0].startswith((" ", "@")) or ":" in lines[0]:
+                    meta.append("")
+                lines = meta + lines
+            return lines
         lines = []
         for i in range(self.rng.randint(1, maxlines)):
             lines.append(" ".join(f"zq{self.tracer}w{i}x{k}" for k in range(self.rng.randint(1, 4))))
@@ -552,9 +566,12 @@ def gen_blockdata(ctx: Ctx):
     return bd
 
 
-def gen_project(seed: int, nfiles=None, docs=True, features=None) -> List[SrcFile]:
+def gen_project(seed: int, nfiles=None, docs=True, features=None, rich_docs=False, ctx_out=None) -> List[SrcFile]:
     rng = random.Random(seed)
     ctx = Ctx(rng, docs=docs)
+    ctx.rich = rich_docs
+    if ctx_out is not None:
+        ctx_out.append(ctx)
     nfiles = nfiles or rng.randint(1, 4)
     files: List[SrcFile] = []
     modules: List[Unit] = []
